@@ -55,6 +55,16 @@ def specs_for(tier, seed):
             add(kind, nth, "acme:%s:500:nononce" % rec[(pi + 3) % len(rec)], [2, 10, 11][pi % 3], "recoverable run without Replay-Nonce")
             if pi % 3 == seed % 3:
                 add(kind, nth, "drop_after", 2, "lost / nonce-less")
+    # a second certificate on the same endpoint: its round begins with a nonce already in the cell and a directory answer that brings
+    # another one - a retransmission still carries the newest nonce the CA gave
+    certs2 = certs + [simple_cert("c2", ids=[{"dns": "c.example.org", "challenge": "http-01"}])]
+    rec = sorted(RECOVERABLE)
+    for k, kind in enumerate(("newOrder", "finalize", "challenge", "authz", "order")):
+        for L in (1, 9):
+            f = "acme:%s:%d" % (rec[(k + L) % len(rec)], 400 if L == 1 else 500)
+            specs.append(dict(tag="C08/s%04d" % len(specs), certs=certs2, attempts=1,
+                              endpoints={"A": {"ca": {"nonce_on_get": True}, "script": [{"kind": kind, "nth": 2 if kind in ("newOrder", "finalize") else 3, "fault": f, "repeat": L}]}},
+                              meta={"kind": kind, "nth": 2, "fault": f, "repeat": L, "why": "recoverable run, two certificates on the endpoint"}))
     # GET positions: no retry loop at all
     for (kind, n, m) in pos:
         if m != "POST":
